@@ -29,7 +29,10 @@ if [ -n "$demo" ]; then
 fi
 rundemo() { # $1 = label
   cp "$demo" "$W/$demopkg/zz_seed_demo_test.go"
-  ( cd "$W/$demopkg" && timeout 600 go test -count=1 -vet=off -run 'Demo|C[0-9][0-9]' . ) > "$dir/eval/demo_$1.log" 2>&1
+  local names race=""
+  names=$(grep -oh '^func Test[A-Za-z0-9_]*' "$demo" | sed 's/^func //' | paste -sd'|')
+  grep -qs 'must be run with `-race`\|under `-race`\|go test -race\|with -race' "$dir/README.md" "$demo" && ! grep -qs 'not run it with `-race`\|Do not run it with `-race`' "$dir/README.md" && race="-race"
+  ( cd "$W/$demopkg" && timeout 900 go test -count=1 -vet=off $race -run "^(${names})\$" . ) > "$dir/eval/demo_$1.log" 2>&1
   rc=$?
   rm -f "$W/$demopkg/zz_seed_demo_test.go"
   return $rc
